@@ -89,6 +89,7 @@ def main(prop, tier, vseed, replay=None):
     seen_viol = set()
     known_lines = set()
     softk = collections.Counter()
+    pairs_gen = collections.Counter()
     for r in results:
         if 'harness_error' in r:
             harness_errors.append(r['harness_error'][-300:]); continue
@@ -116,6 +117,10 @@ def main(prop, tier, vseed, replay=None):
         if r['status'] == 'crash' and not r['taint']:
             crashes[repr(r['crash'])] += 1
         fired = any(decide_value(r, k) > 0 for k in deciding)
+        fs_ = r['features']
+        for i in range(len(fs_)):
+            for j in range(i + 1, len(fs_)):
+                pairs_gen[(fs_[i], fs_[j])] += 1
         if fired:
             if r['sig'] not in sigs:
                 sigs.add(r['sig']); nontrivial += 1
@@ -160,7 +165,8 @@ def main(prop, tier, vseed, replay=None):
         events=events, monitor_evaluations=dict(agg), log_entries=dict(kinds), event_types=dict(evtypes),
         distinct_states=len(states), tie_situations=ties_n, simultaneous_individual_ties=ind_ties, tie_resolutions_seen=tie_choices,
         run_status=dict(status), tainted_runs=dict(tainted), out_of_scope_skipped=skipped,
-        untainted_crashes=dict(crashes), feature_pairs_hit=top_pairs, inconclusive=bool(inconclusive),
+        untainted_crashes=dict(crashes), feature_pairs_hit=top_pairs, feature_pairs_generated=len(pairs_gen),
+        feature_pairs_generated_but_monitor_never_fired=sorted('%s+%s' % k for k in pairs_gen if k not in pairs)[:25], inconclusive=bool(inconclusive),
         inconclusive_reason=inconclusive, harness_errors=harness_errors[:5], shard_failures=[repr(x)[:200] for x in failures],
         known_findings_seen=sorted(known_lines))
     if replay is None:
